@@ -41,6 +41,10 @@ def main():
         ok, obs = SC.replay(su, sch, h, name, (script["history_1"], script["history_2"]))
         print("history 1:", "; ".join(script["history_1"]))
         print("history 2:", "; ".join(script["history_2"]))
+    elif kind == "rule-sound":
+        import canon
+        ok, o, cert = canon.replay_sound(h, name, su, sch, rec["info"]["violation"])
+        obs = [o]
     elif kind == "rule-level":
         import canon
         v = {"script": script[:-1], "query": script[-1], "expect": "Some" if rec["info"]["missing"].endswith("defined") else "true"}
